@@ -166,6 +166,8 @@ REGRESSION_PROGRAMS = [
     # a replacement field with its own format spec inside a format spec, followed by another field or text (the nested spec
     # is finished by its closing brace)
     'f"{x:{y:1}{z}}"\n', 'f"{x:{y:{z}}{w}}"\n', "f'{x:{y:>{w}}{z!r:{q}}}'\n", 'f"{a:{b:{c}}d{e}f}"\n', "x = f'''{x:{y:1}\n{z}}'''\n",
+    # raw f-strings: \N is no escape there, the braces after it open a replacement field
+    's = rf"\\N{x}"\n', "s = fr'''\\N{x}{y}'''\n", 's = Rf"a\\N{x}\\{y}"\n', 's = f"\\N{DASH}{x}"\n',
     # issues that are reported out of source order (scope checks at the end of a function, a keyword reported on the module):
     # a line that already has an issue is reported again after another line got one
     "def f(x):\n    break; global x\n    continue\n", "x = 1 +\ny = (\nreturn",
